@@ -802,20 +802,50 @@ func (c *Ctx) freshUndo(rule string) {
 				app = call
 			}
 		}
-		allocs := false
-		for _, b := range fn.Blocks {
-			for _, in := range b.Instrs {
-				st, ok := in.(*ssa.Store)
-				if !ok {
-					continue
-				}
-				if _, f, _, ok := core.FieldOf(st.Addr); ok && f == "dirtyAccount" && !core.IsNilConst(st.Val) {
-					if cc, isCall := core.Strip(st.Val).(*ssa.Call); isCall && strings.HasSuffix(core.CalleeName(cc), "CopyOrNewIfEmpty") {
-						allocs = true
+		allocsIn := func(f *ssa.Function) bool {
+			for _, b := range f.Blocks {
+				for _, in := range b.Instrs {
+					st, ok := in.(*ssa.Store)
+					if !ok {
+						continue
+					}
+					if _, fl, _, ok := core.FieldOf(st.Addr); ok && fl == "dirtyAccount" && !core.IsNilConst(st.Val) {
+						if cc, isCall := core.Strip(st.Val).(*ssa.Call); isCall && strings.HasSuffix(core.CalleeName(cc), "CopyOrNewIfEmpty") {
+							return true
+						}
 					}
 				}
 			}
+			return false
 		}
+		// the lazy allocation in the writer itself, or in a get-or-create helper / unjournaled setter it calls (a
+		// callee that journals its own write - SetBalance called by Suiside - carries its own obligation)
+		var reachesAlloc func(f *ssa.Function, d int) bool
+		reachesAlloc = func(f *ssa.Function, d int) bool {
+			if allocsIn(f) {
+				return true
+			}
+			if d == 0 {
+				return false
+			}
+			for _, cc := range core.Calls(f) {
+				g := core.StaticCallee(cc)
+				if g == nil || g == f || len(g.Blocks) == 0 || core.PkgOf(g) != ledgerPkg {
+					continue
+				}
+				journals := false
+				for _, gc := range core.Calls(g) {
+					if core.CalleeName(gc) == "(*internal/ledger.stateChanger).append" {
+						journals = true
+					}
+				}
+				if !journals && reachesAlloc(g, d-1) {
+					return true
+				}
+			}
+			return false
+		}
+		allocs := reachesAlloc(fn, 2)
 		if app == nil || !allocs {
 			continue
 		}
